@@ -5,19 +5,27 @@ from checks import trees
 
 ID = "C20"
 LEAN_MODULES = ["Econf.Props.C20"]
-THEOREMS = ["Econf.C20_readFile_out", "Econf.C20_readConfig_out", "Econf.C20_history_out", "Econf.C20_merge_out"]
+THEOREMS = ["Econf.C20_readFile_out", "Econf.C20_readConfig_out", "Econf.C20_history_out", "Econf.C20_merge_out",
+            "Econf.C20_readConfig_ledger", "Econf.C20_readDirs_ledger", "Econf.C20_readFile_ledger", "Econf.C20_history_ledger",
+            "Econf.C20_readConfig_fresh", "Econf.C20_readConfig_no_leak", "Econf.C20_own_refines"]
 SHRINK = False
 RULE = ("API call sequences of C11 and layered reads of C01/C06/C13/C16 with a failure injected at each consulted file in turn "
         "(callback rejection, foreign owner, malformed line, vanished file = dangling link) and unknown options, through all read entry "
         "points; after the caller has freed the valid handles the allocator's live-byte count (ASan) must be back at its mark; ASan "
-        "reports double frees and use after free; out-pointers must be NULL, untouched or usable; "
+        "reports double frees and use after free; out-pointers must be NULL, untouched or usable; the object events reported by the library "
+        "(creation / release of every econf_file) must form a correct ledger (fresh ids, no release of a dead object) with nothing alive at the end, "
+        "and must equal the ownership model's event sequence (interleaved with callback calls); "
         "non-trivial = the scenario performed at least one allocation-carrying call; distinct by scenario text")
-ASSUMPTIONS = ["leaks are measured as the difference of __sanitizer_get_current_allocated_bytes() between MARK and LEAK"]
+ASSUMPTIONS = ["leaks are measured as the difference of __sanitizer_get_current_allocated_bytes() between MARK and LEAK",
+               "econf_file objects are observed through the guarded hook econf_verif_object_hook (lib/libeconf.c): the three creation sites "
+               "(econf_newKeyFile, econf_newKeyFile_with_options, econf_mergeFiles) and econf_freeFile; the ledger theorems speak about the "
+               "ownership model lean/Econf/Own.lean, whose event sequence is compared line by line with the library's on every scenario"]
 
 
 def ops(rng, sid):
     s = Scenario(sid, {"kind": "ops"})
     s.mkdir(b"/out")
+    s.add("OBJLOG", 1)
     s.add("MARK")
     gen_ops.start(s, rng)
     for _ in range(rng.randint(1, 40)):
@@ -67,6 +75,7 @@ def inject(rng, sid):
     t.emit(s)
     if p["global_confdirs"] is not None:
         p["global_confdirs"] = None      # the process-wide list stays allocated by design
+    s.add("OBJLOG", 1)
     s.add("MARK")
     for c in pre:
         s.add(*c)
@@ -93,6 +102,7 @@ def confdirs_seq(rng, sid):
     s.file(b"/usr/etc/cfg.conf", b"k=1\n")
     s.file(b"/etc/cfg.conf.d/a.conf", b"k=2\n")
     s.file(b"/etc/cfg/conf.d/b.conf", b"j=3\n")
+    s.add("OBJLOG", 1)
     for _ in range(rng.randint(2, 6)):
         lst = rng.choice([[], [], [b".d"], [b"/conf.d", b".conf.d"], [b".d", b"/conf.d", b".x"]])
         s.add("G", "confdirs", *[h(x) for x in lst])
@@ -113,8 +123,37 @@ def scenarios(tier, rng):
     return out
 
 
+def ledger(lines):
+    """replays the object events the library reported (hook econf_verif_object_hook): ids are fresh, nothing is released
+    twice or before it exists; returns (message or None, set of live ids)"""
+    live = set()
+    seen = set()
+    for l in lines:
+        if not l.startswith("obj "):
+            continue
+        _, ev, i = l.split()
+        if ev in ("new", "merged"):
+            if i in seen:
+                return "object id %s created twice" % i, live
+            seen.add(i)
+            live.add(i)
+        elif ev == "free":
+            if i not in live:
+                return ("object %s released twice" % i) if i in seen else "release of an object that was never created (%s)" % i, live
+            live.discard(i)
+    return None, live
+
+
 def oracle(s, lines):
-    if "kind" not in s.meta or s.meta["kind"] == "confdirs":
+    if "kind" not in s.meta:
+        return None
+    msg, live = ledger(lines)
+    if msg:
+        return msg
+    if live and s.meta["kind"] != "keep":
+        return "econf_file objects %s are still alive after the caller released every handle it was given (fault: %s, entry %s)" % (
+            sorted(live), s.meta.get("fault"), s.meta.get("entry"))
+    if s.meta["kind"] == "confdirs":
         return None
     leak = [l for l in lines if l.startswith("leak ")]
     if not leak:
@@ -135,7 +174,9 @@ def nontrivial(s, lines):
 
 def histogram(s, lines):
     m = s.meta
+    nev = sum(1 for l in lines if l.startswith("obj "))
+    evk = "object_events_%s" % ("0" if nev == 0 else "1-2" if nev <= 2 else "3-6" if nev <= 6 else "7-14" if nev <= 14 else "15+")
     if m.get("kind") == "inject":
         res = next((l for l in lines if l.startswith(("rc ", "rd ", "rh "))), "x x")
-        return ["inject_" + m["fault"], "entry_" + m["entry"], "result_" + res.split()[1]]
-    return ["kind_" + m.get("kind", "corpus")]
+        return ["inject_" + m["fault"], "entry_" + m["entry"], "result_" + res.split()[1], evk]
+    return ["kind_" + m.get("kind", "corpus"), evk]
